@@ -195,8 +195,27 @@ pub fn replay_any(_c: &str, case: &Value, known: &Known) -> Option<Outcome> {
     Some(check(&c, known))
 }
 
+/// one exclusion over relations of unknown columns, aliased and not (chained exclusions and exclusions
+/// followed by further steps are recorded C05 findings with RQ symptoms of their own: not generated)
+const EXCLUSION_SOURCES: &[&str] = &[
+    "from e = t1 | select !{a}",
+    "from e = t1 | select !{e.a, e.b}",
+    "from t1 | select !{a}",
+    "from t1 | join v = t2 (t1.id == v.id) | select !{v.id}",
+    "from e = t1 | join v = t2 (e.id == v.id) | select !{e.a}",
+    "from e = t1 | join v = t2 (e.id == v.id) | select !{e.a, v.b}",
+    "let l = (from e = t1 | select !{a})\nfrom l",
+    "let l = (from e = t1 | select !{e.b})\nfrom t2 | join l (t2.id == l.id)",
+    "from e = t1 | filter a > 0 | select !{a}",
+    "from e = t1 | derive {z = a + 1} | select !{e.a}",
+];
+
 pub fn corpus_sources() -> Vec<Case> {
-    crate::util::corpus_programs().into_iter().map(|s| Case { source: s, sorted_sub: false, computed_sort_then_sub: false }).collect()
+    crate::util::corpus_programs()
+        .into_iter()
+        .chain(EXCLUSION_SOURCES.iter().map(|s| format!("{s}\n")))
+        .map(|s| Case { source: s, sorted_sub: false, computed_sort_then_sub: false })
+        .collect()
 }
 
 pub fn run(ctx: &Ctx) -> i32 {
